@@ -7,6 +7,7 @@ import (
 	"testing"
 	"time"
 
+	"github.com/theory/sqljson/path"
 	"github.com/theory/sqljson/path/exec"
 	"github.com/theory/sqljson/path/types"
 )
@@ -118,5 +119,54 @@ func warmUp() {
 			_ = pa.String()
 			_, _ = pa.MarshalText()
 		}()
+	}
+}
+
+// soak is the tail of a long-running process compressed into a fraction of a
+// second: a few hundred calls that each create thousands of short-lived
+// objects (existence checks over the .keyvalue() of a 4096-member object,
+// wildcards over a large array), run when a worker has finished its
+// scenarios and before the sentinels are queried again. Process-wide
+// budgets, counters and pools that some entry point forgets to give back
+// run dry here, and the sentinels then notice.
+func soak() {
+	defer func() { _ = recover() }()
+	ctx := context.Background()
+	obj := make(map[string]any, 4096)
+	for i := 0; i < 4096; i++ {
+		obj[fmt.Sprintf("k%04d", i)] = float64(i)
+	}
+	arr := make([]any, 2048)
+	for i := range arr {
+		arr[i] = map[string]any{"a": float64(i)}
+	}
+	type call struct {
+		p   *path.Path
+		doc any
+	}
+	var calls []call
+	for _, c := range []struct {
+		txt string
+		doc any
+	}{
+		{`strict $.keyvalue()`, obj}, {`$.keyvalue() ? (@.value < 0)`, obj}, {`$.keyvalue().key`, obj},
+		{`$[*].a ? (@ < 0)`, arr}, {`$[*].keyvalue()`, arr}, {`strict $[*].a`, arr},
+	} {
+		if p, err := safeParse(c.txt); err == nil {
+			calls = append(calls, call{p, c.doc})
+		}
+	}
+	for r := 0; r < 90; r++ {
+		for _, c := range calls {
+			func() {
+				defer func() { _ = recover() }()
+				_, _ = c.p.Exists(ctx, c.doc)
+				_, _ = c.p.ExistsOrMatch(ctx, c.doc, exec.WithSilent())
+				if r%10 == 0 {
+					_, _ = c.p.First(ctx, c.doc)
+					_, _ = c.p.Query(ctx, c.doc)
+				}
+			}()
+		}
 	}
 }
